@@ -271,7 +271,21 @@ func (s *state) runSite(fn *ssa.Function, site string, pos token.Pos, rs []Val) 
 			}
 			switch c.kind {
 			case "assert":
-				goal := e.evalBool(c.e)
+				goal := ""
+				func() {
+					defer func() {
+						if r := recover(); r != nil {
+							if _, isEng := r.(engineErr); isEng && s.u.retries > 0 {
+								// annotations of a restructured loop were dropped in this unit and the
+								// assertion mentions what they defined: it can no longer be established
+								goal = "false"
+								return
+							}
+							panic(r)
+						}
+					}()
+					goal = e.evalBool(c.e)
+				}()
 				s.oblige("assert", clauseLabel(c, i), c.src, goal, pos, funcKey(fn)+":"+strings.ReplaceAll(site, " ", "_"), c.deep)
 				s.pc = append(s.pc, goal)
 			case "use":
